@@ -18,12 +18,13 @@ ID = "C18"
 CASES = {"quick": 3000, "thorough": 40000}
 FLOOR = {"quick": 2700, "thorough": 36000}
 FLOOR_COUNTERS = {
-    "quick": {"reused_linear_estimator_objects": 250, "competitors_tried": 25000, "planted_maps": 500, "padded_fits": 1200, "projector_fits": 1200},
-    "thorough": {"reused_linear_estimator_objects": 3500, "competitors_tried": 350000, "planted_maps": 7000, "padded_fits": 16000, "projector_fits": 16000},
+    "quick": {"reused_linear_estimator_objects": 250, "competitors_tried": 25000, "planted_maps": 500, "padded_fits": 1200, "projector_fits": 1200, "estimators_with_a_past": 900, "one_dimensional_targets": 50, "other_units": 600},
+    "thorough": {"reused_linear_estimator_objects": 3500, "competitors_tried": 350000, "planted_maps": 7000, "padded_fits": 16000, "projector_fits": 16000, "estimators_with_a_past": 12000, "one_dimensional_targets": 700, "other_units": 8000},
 }
 RULE = (
     "case = X (n 6-40, f 1-8), y (p 1-8; noisy linear, pure noise, or planted y = X A with A a (partial) isometry), mode "
-    "padded | projector, linear estimator None | LinearRegression(+-intercept) | Ridge; competitors: 6 Haar-random orthogonal "
+    "padded | projector (a single target also as a 1-D vector), targets with offsets, X and y in other units (x 2^-40..2^19), 40% of the "
+    "estimators with a past (fits with the two widths exchanged / enlarged, same padded size), linear estimator None | LinearRegression(+-intercept) | Ridge; competitors: 6 Haar-random orthogonal "
     "maps + small rotations exp(eps A) of the fitted one, eps in {1e-1,1e-2,1e-3}. non-trivial = f != p or planted; "
     "distinct by data+config hash."
 )
@@ -55,7 +56,19 @@ def gen(rng, tier, index):
         y = X @ rng.normal(size=(f, p)) + 0.3 * rng.normal(size=(n, p))
     else:
         y = rng.normal(size=(n, p))
+    if kind != "planted" and rng.random() < 0.4:  # targets with an offset: slope and raw correlation may disagree in sign
+        y = y + rng.normal(size=p) * 10.0
+        if rng.random() < 0.5:
+            X = np.abs(X) + rng.uniform(0, 3, size=f)
+    ux = uy = 1.0
+    if rng.random() < 0.3:  # other units (exact powers of two); a planted isometry needs the same unit on both sides
+        ux = float(2.0 ** int(rng.integers(-30, 20)))
+        uy = ux if kind == "planted" else float(2.0 ** int(rng.integers(-40, 20)))
+        X, y = X * ux, y * uy
     return {
+        "units": [ux, uy],
+        "y1d": bool(p == 1 and rng.random() < 0.6),
+        "past": bool(rng.random() < 0.4),
         "X": X,
         "y": y,
         "A": A,
@@ -63,7 +76,7 @@ def gen(rng, tier, index):
         "projector": bool((index // 3) % 2),
         "est": gens.pick(rng, ("none", "lr", "lr_noint", "ridge")),
         "cseed": int(rng.integers(1 << 30)),
-        "Z": rng.normal(size=(5, f)),
+        "Z": rng.normal(size=(5, f)) * ux,
     }
 
 
@@ -94,7 +107,20 @@ def run(case, j):
         decoy.fit(rng.normal(size=X.shape), rng.normal(size=y.shape))
         j.note("reused_linear_estimator_objects")
     est = OrthogonalRegression(use_orthogonal_projector=proj, linear_estimator=lin)
-    j.lib("fit", est.fit, X, y)
+    if case.get("past"):
+        # the estimator itself has a past: fitted on other data with the same number of samples and the same padded
+        # size, but the widths of the two sides exchanged / enlarged
+        mc0 = max(f, p)
+        for f0, p0 in ((p, f), (mc0, mc0)):
+            j.lib("fit:decoy", est.fit, rng.normal(size=(n, f0)) * 3 + 1, rng.normal(size=(n, p0)) * 3 - 1)
+            j.lib("predict:decoy", est.predict, rng.normal(size=(2, f0)))
+        j.note("estimators_with_a_past")
+    yin = y[:, 0].copy() if (case.get("y1d") and proj) else y  # padded mode is defined for 2-D targets only
+    if yin.ndim == 1:
+        j.note("one_dimensional_targets")
+    if case.get("units", [1.0, 1.0]) != [1.0, 1.0]:
+        j.note("other_units")
+    j.lib("fit", est.fit, X, yin)
     Om = np.asarray(est.coef_).T  # predict(x) = x_(padded) @ Om
     ny = max(float(np.linalg.norm(y)), 1e-300)
     if not proj:
@@ -106,7 +132,7 @@ def run(case, j):
         Xp = np.pad(X, [(0, 0), (0, mc - f)])
         yp = np.pad(y, [(0, 0), (0, mc - p)])
         pred = np.asarray(est.predict(X))
-        j.close("predict(X) == padded X @ Omega", pred, Xp @ Om, 1e-10 * max(float(np.abs(Xp).max()), 1.0))
+        j.close("predict(X) == padded X @ Omega", pred, Xp @ Om, 1e-10 * max(float(np.abs(Xp).max()), 1e-300))
         res = float(np.linalg.norm(yp - Xp @ Om))
         comps = [gens.orthogonal(rng, mc) for _ in range(6)] + [Om @ expm(eps * _skew(rng, mc)) for eps in (1e-1, 1e-2, 1e-3)]
         for C in comps:
@@ -114,8 +140,8 @@ def run(case, j):
             j.ok("training residual no larger than for any other orthogonal matrix of the padded size", res <= rc + 1e-9 * (ny + rc), (res, rc))
             j.note("competitors_tried")
         pz = np.asarray(est.predict(Z))
-        j.close("predict(Z) == zero-padded Z @ Omega on new data", pz, np.pad(Z, [(0, 0), (0, mc - f)]) @ Om, 1e-10 * max(float(np.abs(Z).max()), 1.0))
-        j.close("predictions keep the norm of their inputs", np.linalg.norm(pz, axis=1), np.linalg.norm(Z, axis=1), 1e-10 * max(float(np.abs(Z).max()), 1.0) * 10)
+        j.close("predict(Z) == zero-padded Z @ Omega on new data", pz, np.pad(Z, [(0, 0), (0, mc - f)]) @ Om, 1e-10 * max(float(np.abs(Z).max()), 1e-300))
+        j.close("predictions keep the norm of their inputs", np.linalg.norm(pz, axis=1), np.linalg.norm(Z, axis=1), 1e-10 * max(float(np.abs(Z).max()), 1e-300) * 10)
         if A is not None and f <= p:
             j.ok("planted orthogonal map: training residual vanishes", res <= 1e-8 * ny, (res, ny))
             j.close("planted map recovered on the range of X", Om[:f, :p], A, 1e-7)
@@ -127,8 +153,8 @@ def run(case, j):
         r = min(f, p)
         j.close("non-zero singular values of Omega are 1 (partial isometry)", sv[:r], np.ones(r), 1e-10)
         pz = np.asarray(est.predict(Z))
-        j.close("predict(Z) == Z @ Omega", pz, Z @ Om, 1e-12 * max(float(np.abs(Z).max()), 1.0))
-        j.ok("predictions never have a larger norm than their inputs", bool(np.all(np.linalg.norm(pz, axis=1) <= np.linalg.norm(Z, axis=1) * (1 + 1e-10) + 1e-12)))
+        j.close("predict(Z) == Z @ Omega", pz.reshape(len(Z), -1), Z @ Om, 1e-12 * max(float(np.abs(Z).max()), 1e-300))
+        j.ok("predictions never have a larger norm than their inputs", bool(np.all(np.linalg.norm(pz.reshape(len(Z), -1), axis=1) <= np.linalg.norm(Z, axis=1) * (1 + 1e-10))))
         # reduced bases of the fitted map
         U, _, Vt = np.linalg.svd(Om, full_matrices=False)
         R0 = U.T @ Om @ Vt.T
